@@ -230,6 +230,9 @@ func checkC07(c *Ctx) {
 	r.Rule("R6.registry-writers", "the only post-init writer of macPayloadRegistry is RegisterProprietaryMACCommand: under Lock, keyed by the caller's direction and CID, after rejecting CID < 128")
 	r.Rule("R8.no-input-write", "no decoder writes through its input slice (commands of one stream share the buffer: a write would corrupt the following command)")
 	r.Rule("R7.port0", "marshalPayload refuses a *MACCommand unless FPort is set and 0")
+	r.Rule("R9.registry-lookup", "GetMACPayloadAndSize resolves each of the 2 x 256 (direction, CID) pairs to the specified payload type and size or to an error; registering a proprietary CID with a size changes that pair only")
+	registryLookupE1(c, "R9.registry-lookup")
+	c07Sequences(c, "R10.sequence")
 	for _, s := range macSpecs {
 		res := runCodec(c, s)
 		r.Saw("codecs analysed", s.name())
@@ -485,4 +488,131 @@ func truthTable(info *types.Info, e ast.Expr, atoms []string) map[string]bool {
 		out[key] = v
 	}
 	return out
+}
+
+// registryLookupE1 decides the registry through its accessor instead of its representation: GetMACPayloadAndSize is
+// interpreted (engine E1, package-level initialisers evaluated) for each of the 2 x 256 (direction, CID) pairs; the
+// pair must resolve to the specification's payload type and size, or to an error when the specification defines no
+// payload for it. Then, for each direction and each proprietary CID 128..255, RegisterProprietaryMACCommand(dir, cid, 3)
+// is interpreted on a fresh state and the lookups that could be disturbed are repeated: the registered pair has size 3,
+// the same CID in the other direction, the CID with the top bit cleared and every standard command are unchanged.
+func registryLookupE1(c *Ctx, rule string) {
+	r := c.Run
+	want := map[string]ws{}
+	for _, s := range macSpecs {
+		want[fmt.Sprintf("%s/%#02x", s.Dir, s.CID)] = s
+	}
+	dirName := func(up bool) string {
+		if up {
+			return "up"
+		}
+		return "down"
+	}
+	type res struct {
+		typ  string
+		size int64
+		err  bool
+		bad  string
+	}
+	lookup := func(in *absint.Interp, up bool, cid int) res {
+		d := in.D
+		upN := absint.False
+		if up {
+			upN = absint.True
+		}
+		var out []absint.Value
+		if err := in.Try(func() {
+			in.SetLive(absint.True)
+			out = in.CallFunc("", "GetMACPayloadAndSize", d.Bool(upN), d.Const(int64(cid), 8, false))
+		}); err != nil {
+			return res{bad: err.Error()}
+		}
+		ev, ok := out[2].(*absint.ErrVal)
+		if !ok {
+			return res{bad: fmt.Sprintf("error result is %T", out[2])}
+		}
+		switch ev.NonNil {
+		case absint.True:
+			return res{err: true}
+		case absint.False:
+		default:
+			return res{bad: "error depends on a symbolic value"}
+		}
+		sz, ok := out[1].(*absint.Bits)
+		if !ok {
+			return res{bad: "size is not an integer"}
+		}
+		k, isC := d.ConstVal(sz)
+		if !isC {
+			return res{bad: "size is symbolic"}
+		}
+		typ := "?"
+		if iface, ok := out[0].(*absint.Iface); ok && iface.DynT != nil {
+			typ = types.TypeString(iface.DynT, func(*types.Package) string { return "" })
+			typ = strings.TrimPrefix(typ, "*")
+		}
+		return res{typ: typ, size: k}
+	}
+	base := absint.NewInterp(c.Prog)
+	for _, up := range []bool{true, false} {
+		for cid := 0; cid < 256; cid++ {
+			k := fmt.Sprintf("%s/%#02x", dirName(up), cid)
+			got := lookup(base, up, cid)
+			if got.bad != "" {
+				r.Unknown(rule, "lookup/"+k, "", "GetMACPayloadAndSize inside the interpreter's subset", got.bad)
+				continue
+			}
+			if s, ok := want[k]; ok {
+				r.Check(!got.err && got.typ == s.Type && int(got.size) == s.Size, rule, "lookup/"+k, "", fmt.Sprintf("%s, %d bytes", s.Type, s.Size), fmt.Sprintf("type %s size %d error=%v", got.typ, got.size, got.err), true)
+			} else {
+				r.Check(got.err, rule, "lookup/"+k, "", "no payload (an error): the specification defines none for this CID and direction", fmt.Sprintf("type %s size %d error=%v", got.typ, got.size, got.err), cid < 0x30)
+			}
+		}
+	}
+	// registration of a proprietary command
+	for _, up := range []bool{true, false} {
+		for cid := 128; cid < 256; cid++ {
+			key := fmt.Sprintf("register/%s/%#02x", dirName(up), cid)
+			in := absint.NewInterp(c.Prog)
+			d := in.D
+			upN := absint.False
+			if up {
+				upN = absint.True
+			}
+			var out []absint.Value
+			if err := in.Try(func() {
+				out = in.CallFunc("", "RegisterProprietaryMACCommand", d.Bool(upN), d.Const(int64(cid), 8, false), d.Const(3, 64, true))
+			}); err != nil {
+				r.Unknown(rule, key, "", "RegisterProprietaryMACCommand inside the interpreter's subset", err.Error())
+				continue
+			}
+			if ev, ok := out[0].(*absint.ErrVal); !ok || ev.NonNil != absint.False {
+				r.Bad(rule, key, "", "a CID >= 128 with a positive size is accepted", in.Show(out[0]))
+				continue
+			}
+			var wrong []string
+			chk := func(u bool, id int, wantErr bool, wantSize int, what string) {
+				g := lookup(in, u, id)
+				switch {
+				case g.bad != "":
+					wrong = append(wrong, what+": "+g.bad)
+				case wantErr && !g.err:
+					wrong = append(wrong, fmt.Sprintf("%s: %s/%#02x now resolves to %s size %d", what, dirName(u), id, g.typ, g.size))
+				case !wantErr && (g.err || int(g.size) != wantSize):
+					wrong = append(wrong, fmt.Sprintf("%s: %s/%#02x size %d error=%v, expected size %d", what, dirName(u), id, g.size, g.err, wantSize))
+				}
+			}
+			chk(up, cid, false, 3, "the registered pair")
+			chk(!up, cid, true, 0, "the other direction")
+			low := cid & 0x7f
+			for _, u := range []bool{true, false} {
+				if s, ok := want[fmt.Sprintf("%s/%#02x", dirName(u), low)]; ok {
+					chk(u, low, false, s.Size, "the standard command with the same low bits")
+				} else {
+					chk(u, low, true, 0, "the CID with the top bit cleared")
+				}
+			}
+			r.Check(len(wrong) == 0, rule, key, "", "size 3 in that direction only; standard commands untouched", strings.Join(wrong, "; "), true)
+		}
+	}
 }
